@@ -100,19 +100,19 @@ type Op struct {
 
 // SeqScn is a single-client sequential history.
 type SeqScn struct {
-	Kind   string    `json:"kind"` // which property's workload generated it
-	Cfg    SrvCfg    `json:"cfg"`
-	Tree   []TreeEnt `json:"tree"`
-	Cred   Cred      `json:"cred"`
-	Addr   string    `json:"addr,omitempty"`
-	Ops    []Op      `json:"ops"`
-	ThinkM int       `json:"think_ms"` // client think time between operations
-	Diff   bool      `json:"diff,omitempty"` // C02: lock-step differential against a cache-less server
-	Faults []simfs.Fault `json:"faults,omitempty"`
-	Sched  SchedCfg  `json:"sched"`
-	Segment bool     `json:"segment,omitempty"`
-	UpdAt  int       `json:"upd_at,omitempty"` // runtime option update before this op index (0 = none)
-	UpdCfg *SrvCfg   `json:"upd_cfg,omitempty"`
+	Kind    string        `json:"kind"` // which property's workload generated it
+	Cfg     SrvCfg        `json:"cfg"`
+	Tree    []TreeEnt     `json:"tree"`
+	Cred    Cred          `json:"cred"`
+	Addr    string        `json:"addr,omitempty"`
+	Ops     []Op          `json:"ops"`
+	ThinkM  int           `json:"think_ms"`       // client think time between operations
+	Diff    bool          `json:"diff,omitempty"` // C02: lock-step differential against a cache-less server
+	Faults  []simfs.Fault `json:"faults,omitempty"`
+	Sched   SchedCfg      `json:"sched"`
+	Segment bool          `json:"segment,omitempty"`
+	UpdAt   int           `json:"upd_at,omitempty"` // runtime option update before this op index (0 = none)
+	UpdCfg  *SrvCfg       `json:"upd_cfg,omitempty"`
 }
 
 type handleRef struct {
@@ -124,37 +124,37 @@ type handleRef struct {
 
 // seqRun is the state of one world being driven.
 type seqRun struct {
-	o       *Outcome
-	sc      *SeqScn
-	w       *World
-	cl      *Client
-	model   *treeModel
-	handles []handleRef
-	ghost   map[string]string // handle bytes -> path at first issue (C06)
-	reissued map[string]bool  // handle values the client has seen issued for more than one path
-	ident   map[string][2]uint64 // path -> (ftype, fileid) at first sighting (C04)
-	cred    Cred
-	euid, egid uint32
-	eaux    []uint32
-	readOnly bool
-	transfer int
-	maxFile  int64
-	lastSeq  int
-	strictAttrs bool // compare reply attributes with the backend (sequential, fault-free runs)
-	faulty   bool
+	o                                                                  *Outcome
+	sc                                                                 *SeqScn
+	w                                                                  *World
+	cl                                                                 *Client
+	model                                                              *treeModel
+	handles                                                            []handleRef
+	ghost                                                              map[string]string    // handle bytes -> path at first issue (C06)
+	reissued                                                           map[string]bool      // handle values the client has seen issued for more than one path
+	ident                                                              map[string][2]uint64 // path -> (ftype, fileid) at first sighting (C04)
+	cred                                                               Cred
+	euid, egid                                                         uint32
+	eaux                                                               []uint32
+	readOnly                                                           bool
+	transfer                                                           int
+	maxFile                                                            int64
+	lastSeq                                                            int
+	strictAttrs                                                        bool // compare reply attributes with the backend (sequential, fault-free runs)
+	faulty                                                             bool
 	nWriteEOF, nTrunc, nRead, nNegPos, nReaddirAfterMut, nRenameLooked int
-	resynced    int
-	evicted     int
-	prevLive    map[uint64]string
-	target      string
-	nameInvalid bool
-	badName     string
-	diverged    bool
-	loose       bool              // the operation's path traverses a symlink: outcome is backend-defined
-	lastMut     map[string]string // path -> last successful mutating operation that touched it
-	mutatedDirs map[string]bool
-	negLooked  map[string]bool
-	looked     map[string]bool
+	resynced                                                           int
+	evicted                                                            int
+	prevLive                                                           map[uint64]string
+	target                                                             string
+	nameInvalid                                                        bool
+	badName                                                            string
+	diverged                                                           bool
+	loose                                                              bool              // the operation's path traverses a symlink: outcome is backend-defined
+	lastMut                                                            map[string]string // path -> last successful mutating operation that touched it
+	mutatedDirs                                                        map[string]bool
+	negLooked                                                          map[string]bool
+	looked                                                             map[string]bool
 }
 
 func fileid(p string) uint64 {
